@@ -16,6 +16,8 @@ type ApplyIn struct {
 	V   spec.V  `json:"v"`
 	P   []PStep `json:"p"`
 	How string  `json:"how"` // how the path was derived (label only)
+	// Style selects the path constructors (see ctyPathVia).
+	Style int `json:"style,omitempty"`
 }
 
 // prepare builds the value and its normalized model; ok=false means the case
@@ -309,8 +311,75 @@ func genApplyIn(t *rapid.T) ApplyIn {
 		p = append(p, s)
 	}
 	how := "valid"
-	switch rapid.IntRange(0, 9).Draw(t, "mutation") {
+	switch rapid.IntRange(0, 12).Draw(t, "mutation") {
 	case 0, 1:
+	case 10, 11:
+		// type-level continuation: go to an unknown container (if the value
+		// has one) and step into it by keys its type admits
+		var unk []int
+		for i, m := range ms {
+			if m.V.St == spec.Unknown && isContainerKind(m.V.T.K) && m.V.T.K != spec.KSet && !m.UnderSet {
+				unk = append(unk, i)
+			}
+		}
+		if len(unk) > 0 {
+			m := ms[rapid.SampledFrom(unk).Draw(t, "unkmember")]
+			p = append([]PStep(nil), m.Path...)
+			ty := m.V.T
+			for d := 0; d < 3 && isContainerKind(ty.K) && ty.K != spec.KSet; d++ {
+				switch ty.K {
+				case spec.KList:
+					p = append(p, keyStep(spec.KnownNum(rapid.SampledFrom(numKeyPool[:12]).Draw(t, "tlidx"))))
+					ty = *ty.E
+				case spec.KMap:
+					p = append(p, keyStep(spec.KnownStr(rapid.SampledFrom(strKeyPool).Draw(t, "tlkey"))))
+					ty = *ty.E
+				case spec.KTuple:
+					if len(ty.Elems) == 0 {
+						p = append(p, keyStep(intKey(0)))
+						ty = spec.Bool
+						break
+					}
+					i := rapid.IntRange(0, len(ty.Elems)).Draw(t, "tltuple")
+					p = append(p, keyStep(intKey(i)))
+					if i < len(ty.Elems) {
+						ty = ty.Elems[i]
+					} else {
+						ty = spec.Bool
+					}
+				case spec.KObject:
+					if len(ty.Attrs) == 0 {
+						p = append(p, attrStep("a"))
+						ty = spec.Bool
+						break
+					}
+					a := rapid.SampledFrom(ty.Attrs).Draw(t, "tlattr")
+					p = append(p, attrStep(spec.NFC(a.Name)))
+					ty = a.T
+				}
+				if rapid.IntRange(0, 2).Draw(t, "tlstop") == 0 {
+					break
+				}
+			}
+			how = "type-level"
+		}
+	case 12:
+		// an unknown key of the right type in place of a known one
+		var idxs []int
+		for i, st := range p {
+			if st.Key != nil && st.Key.St == spec.Known && (st.Key.T.K == spec.KNumber || st.Key.T.K == spec.KString) {
+				idxs = append(idxs, i)
+			}
+		}
+		if len(idxs) > 0 {
+			i := rapid.SampledFrom(idxs).Draw(t, "unkat")
+			k := spec.UnknownOf(p[i].Key.T)
+			if rapid.IntRange(0, 3).Draw(t, "unkmarked") == 0 {
+				k.Marks = []string{"k"}
+			}
+			p[i] = keyStep(k)
+			how = "unknown-key"
+		}
 	case 2, 3:
 		if len(p) > 0 {
 			i := rapid.IntRange(0, len(p)-1).Draw(t, "swapat")
@@ -327,7 +396,7 @@ func genApplyIn(t *rapid.T) ApplyIn {
 		// same key, other construction route / NFC variant
 		if len(p) > 0 {
 			i := rapid.IntRange(0, len(p)-1).Draw(t, "rerouteat")
-			if k := p[i].Key; k != nil && k.St == spec.Known && k.T.K == spec.KNumber {
+			if k := p[i].Key; k != nil && k.St == spec.Known && k.T.K == spec.KNumber && k.N.Route == "int" && k.N.Float().Sign() >= 0 {
 				txt := k.N.Text
 				nk := spec.KnownNum(rapid.SampledFrom([]spec.Num{spec.NParse(txt + ".0"), spec.NParse(txt), {Route: "big", Text: txt, Prec: 53}, {Route: "uint", Text: txt}}).Draw(t, "route"))
 				p[i] = keyStep(nk)
@@ -361,14 +430,14 @@ func genApplyIn(t *rapid.T) ApplyIn {
 		}
 		how = "random"
 	}
-	return ApplyIn{V: v, P: p, How: how}
+	return ApplyIn{V: v, P: p, How: how, Style: rapid.IntRange(0, 2).Draw(t, "style")}
 }
 
 func init() {
 	facet.Register(facet.F[ApplyIn]{
 		Prop: "C19", Name: "apply/iff-exists",
-		Rule: "path of >= 2 steps whose first step exists, over a value of nesting depth >= 2, with a decided model outcome; paths are members' paths, unchanged or mutated (step swapped, appended, truncated, key re-routed / off by one), or random; keys include unknown, null, marked, wrong-typed, negative, fractional, huge; Apply must succeed exactly when the model says every step names an existing member (type-level for unknown containers), return that member plus inherited marks, and never panic; distinct = hash of the input JSON",
-		Quick: 60000, Thorough: 400000,
+		Rule:  "path of >= 2 steps whose first step exists, over a value of nesting depth >= 2, with a decided model outcome; paths are members' paths, unchanged or mutated (step swapped, appended, truncated, key re-routed / off by one), or random; keys include unknown, null, marked, wrong-typed, negative, fractional, huge; Apply must succeed exactly when the model says every step names an existing member (type-level for unknown containers), return that member plus inherited marks, and never panic; distinct = hash of the input JSON",
+		Quick: 60000, Thorough: 140000,
 		Gen: genApplyIn,
 		Check: func(c *facet.Ctx, in ApplyIn) error {
 			root, model, ok := prepare(c, in.V)
@@ -377,11 +446,7 @@ func init() {
 			}
 			for _, s := range in.P {
 				if s.Key != nil {
-					if collapsed(*s.Key) {
-						c.Skip()
-						return nil
-					}
-					if _, err := spec.Build(*s.Key); err != nil {
+					if collapsed(*s.Key) || !keySpecOK(*s.Key) {
 						c.Skip()
 						return nil
 					}
@@ -390,7 +455,11 @@ func init() {
 					return nil
 				}
 			}
-			path := ctyPath(in.P)
+			path, pok := ctyPathVia(in.P, in.Style)
+			if !pok {
+				return facet.Failf("path-builders", "building %s step by step (style %d) disturbed an earlier path or gave a different path than the step literals", pathText(in.P), in.Style)
+			}
+			c.Labelf("style=%d", in.Style%3)
 			m := modelApply(model, in.P)
 			c.Label("how=" + in.How)
 			got, err, pan := safeApply(path, root)
@@ -479,4 +548,28 @@ func init() {
 			return nil
 		},
 	})
+}
+
+// keySpecOK reports whether a key spec is self-consistent: it builds, and a
+// number key's text denotes the number its route builds.
+func keySpecOK(k spec.V) (ok bool) {
+	defer func() {
+		if r := recover(); r != nil {
+			ok = false
+		}
+	}()
+	v, err := spec.Build(k)
+	if err != nil {
+		return false
+	}
+	if k.St == spec.Known && k.T.K == spec.KNumber {
+		if k.N == nil {
+			return false
+		}
+		raw, _ := v.Unmark()
+		if raw.AsBigFloat().Cmp(k.N.Float()) != 0 {
+			return false
+		}
+	}
+	return true
 }
